@@ -24,6 +24,7 @@ CONFIGS = {
     'defs': ({'pack': '*', 'lang': 'en', 'defs': DEFS}, False),
     'defs-ml': ({'pack': '*', 'lang': 'en-GB', 'defs': DEFS, 'repl': REPL}, True),
     'unkn': ({'pack': '*', 'lang': 'en', 'unkn': True}, False),
+    'repl-ml': ({'pack': '*', 'lang': 'en-GB', 'repl': REPL}, True),      # replacements act on the main-language parts only
     'dcls': ({'pack': 'babel', 'dcls': 'scrartcl', 'lang': 'de-DE', 'seqs': True}, True),
 }
 MAIN_CFGS = ['de-all', 'en-ml', 'ru-seqs-nosp']
@@ -165,7 +166,7 @@ def cases(tier, which):
     for n in (1, 2):
         for f in cat.forests(cat.ALL if n == 1 or not quick else cat.CORE, n):
             lang = catcheck.langs_for(f)[0]
-            for cfg in (ALL_CFGS if n == 1 else ['en-ml', 'extr', 'defs-ml']):
+            for cfg in (ALL_CFGS if n == 1 else ['en-ml', 'extr', 'defs-ml', 'repl-ml']):
                 yield ['doc', f, ' ', lang, cfg]
     # (c) single faults of rich documents
     docs = rich_docs()
